@@ -17,7 +17,7 @@ func init() {
 func runC13(c *Ctx) {
 	L := c.L
 	L.Rule("alphabet-wildcard", "an alphabet-specific constant is used only where the controlling alphabet comparisons select its own alphabet")
-	c.checkAlphabetConsts("alphabet-wildcard", map[string]bool{"(*seqbag).Deduplicate": true})
+	c.checkAlphabetConsts("alphabet-wildcard", c.withHelperDecls("align", "*seqbag", "Deduplicate"))
 	L.Floor("alphabet-wildcard", 2, "ALL_AMINO and ALL_NUCLE in Deduplicate")
 	c.checkDeduplicate()
 	c.checkCompress()
@@ -59,24 +59,34 @@ func (c *Ctx) checkDeduplicate() {
 		}
 		return false
 	}
-	// fold calls
+	// fold calls, in the function or in the helpers of the module it computes the key with
 	nFold := 0
-	allInstrs(fn, func(in ssa.Instruction) {
+	isFold := func(cc *ssa.CallCommon) bool {
+		return isPkgFunc(cc, "strings", "ReplaceAll") || isPkgFunc(cc, "strings", "Replace")
+	}
+	c.ipWalk(rootFrame(fn), func(in ssa.Instruction, fr *ipFrame) bool {
 		call, ok := in.(*ssa.Call)
 		if !ok {
-			return
+			return false
 		}
 		cc := call.Common()
-		if !(isPkgFunc(cc, "strings", "ReplaceAll") || isPkgFunc(cc, "strings", "Replace")) {
-			return
+		if !isFold(cc) {
+			return false
 		}
 		nFold++
-		src := isRowString(cc.Args[0])
+		sv, sfr := fr.resolveDeep(cc.Args[0])
+		src := sfr.up == nil && isRowString(sv)
 		to, _ := cStr(constOf(cc.Args[2]))
 		from, _ := cStr(constOf(cc.Args[1]))
 		okW := from == "N" || from == "X"
-		L.Check(src && to == gap && okW, "dedup-fold", r.label, "fold "+from+" → "+to, c.P.Pos(call.Pos()), "ReplaceAll(row, wildcard, GAP) on the row's own residues",
-			fmt.Sprintf("the comparison key is not the row with its wildcard replaced by the gap (source is the row: %v, from %q to %q)", src, from, to))
+		all := true
+		if isPkgFunc(cc, "strings", "Replace") {
+			n, isN := constInt(cc.Args[3])
+			all = isN && n < 0
+		}
+		L.Check(src && to == gap && okW && all, "dedup-fold", r.label, "fold "+from+" → "+to, c.P.Pos(call.Pos()), "ReplaceAll(row, wildcard, GAP) on the row's own residues",
+			fmt.Sprintf("the comparison key is not the row with every wildcard replaced by the gap (source is the row: %v, from %q to %q, all occurrences: %v)", src, from, to, all))
+		return true
 	})
 	L.Floor("dedup-fold", 2, "one fold per alphabet")
 
@@ -131,38 +141,71 @@ func (c *Ctx) checkDeduplicate() {
 	okKeySrc := false
 	if lk != nil {
 		okKeySrc = true
-		for v := range throughPhis(lk.Index, false) {
-			switch x := v.(type) {
-			case *ssa.Phi:
-			case *ssa.Call:
-				if !(isPkgFunc(x.Common(), "strings", "ReplaceAll") || isPkgFunc(x.Common(), "strings", "Replace")) {
+		var leaf func(v ssa.Value, fr *ipFrame, depth int)
+		leaf = func(v ssa.Value, fr *ipFrame, depth int) {
+			for w := range throughPhis(v, false) {
+				switch x := w.(type) {
+				case *ssa.Phi:
+				case *ssa.Call:
+					if isFold(x.Common()) {
+						continue
+					}
+					// a helper of the module that returns the key: each value it returns is a key source
+					if g := c.expandable(x, fr); g != nil && depth < 3 {
+						nfr := &ipFrame{fn: g, site: x, up: fr}
+						allInstrs(g, func(in ssa.Instruction) {
+							if ret, ok := in.(*ssa.Return); ok && len(ret.Results) == 1 {
+								leaf(ret.Results[0], nfr, depth+1)
+							}
+						})
+						continue
+					}
 					okKeySrc = false
-				}
-			case *ssa.Const:
-				// zero value of the variable declared before the loop
-			case *ssa.UnOp:
-				if _, f, base := loadedField(x); base == nil || f != "sequence" {
-					okKeySrc = false
-				}
-			default:
-				if !isRowString(v) {
-					okKeySrc = false
-				}
-			}
-		}
-	}
-	// new group in the add block: MapUpdate value = len(appended)-1, same block region as add
-	okNew := false
-	if upd != nil {
-		if sub, ok := upd.Value.(*ssa.BinOp); ok && sub.Op == token.SUB {
-			if k, ok := constInt(sub.Y); ok && k == 1 {
-				if call, ok := sub.X.(*ssa.Call); ok && builtinName(call.Common()) == "len" {
-					if ap, ok := call.Common().Args[0].(*ssa.Call); ok && builtinName(ap.Common()) == "append" {
-						okNew = add.Block().Dominates(upd.Block()) || add.Block() == upd.Block()
+				case *ssa.Const:
+					// zero value of the variable declared before the loop
+				case *ssa.UnOp:
+					if _, f, base := loadedField(x); base == nil || f != "sequence" {
+						okKeySrc = false
+					}
+				case *ssa.Parameter:
+					rv, rfr := fr.resolveDeep(x)
+					if rfr.up != nil || !isRowString(rv) {
+						okKeySrc = false
+					}
+				default:
+					if fr.up != nil || !isRowString(w) {
+						okKeySrc = false
 					}
 				}
 			}
 		}
+		leaf(lk.Index, rootFrame(fn), 0)
+	}
+	// new group in the add block: MapUpdate value = len(appended)-1, same block region as add
+	// (decided on lengths, so `groups = append(groups, g); m[k] = len(groups)-1` and
+	// `m[k] = len(groups); groups = append(groups, g)` are the same thing)
+	okNew := false
+	if upd != nil {
+		glc := newLinCtx(c, fn)
+		allInstrs(fn, func(in ssa.Instruction) {
+			ap, ok := in.(*ssa.Call)
+			if !ok || builtinName(ap.Common()) != "append" {
+				return
+			}
+			sl, ok := ap.Type().Underlying().(*types.Slice)
+			if !ok {
+				return
+			}
+			if _, ok := sl.Elem().Underlying().(*types.Slice); !ok {
+				return // not the list of groups
+			}
+			if !(add.Block().Dominates(ap.Block())) || !(add.Block().Dominates(upd.Block())) {
+				return
+			}
+			if glc.of(upd.Value).equal(glc.lenOf(ap.Common().Args[0])) {
+				okNew = true
+			}
+		})
 	}
 	// exactly one of {add, append to existing group} per row
 	lp := innermostLoopOf(naturalLoops(fn), add.Block())
@@ -230,10 +273,96 @@ func (c *Ctx) checkDeduplicate() {
 	L.Floor("dedup-order", 1, "one loop")
 }
 
+// walkIndexStartsAtZero: the cell bound to free variable fv of the walk callback cl holds the
+// constant 0 on every path to the call that receives the callback (forward constant propagation
+// on that one cell; any non-constant store or earlier use of the callback gives "unknown").
+func walkIndexStartsAtZero(fn, cl *ssa.Function, fv *ssa.FreeVar) bool {
+	var mc *ssa.MakeClosure
+	allInstrs(fn, func(in ssa.Instruction) {
+		if m, ok := in.(*ssa.MakeClosure); ok && m.Fn == ssa.Value(cl) {
+			mc = m
+		}
+	})
+	if mc == nil {
+		return false
+	}
+	var cell ssa.Value
+	for i, f := range cl.FreeVars {
+		if f == fv && i < len(mc.Bindings) {
+			cell = mc.Bindings[i]
+		}
+	}
+	if cell == nil {
+		return false
+	}
+	// the call that takes the closure
+	var walk ssa.Instruction
+	var findCall func(v ssa.Value, depth int)
+	findCall = func(v ssa.Value, depth int) {
+		if refs := v.Referrers(); refs != nil && depth < 3 {
+			for _, ref := range *refs {
+				switch x := ref.(type) {
+				case *ssa.Call:
+					walk = x
+				case *ssa.ChangeType:
+					findCall(x, depth+1)
+				}
+			}
+		}
+	}
+	findCall(mc, 0)
+	if walk == nil {
+		return false
+	}
+	const (
+		unreached = iota
+		zero
+		unknown
+	)
+	state := map[*ssa.BasicBlock]int{}
+	transfer := func(b *ssa.BasicBlock, st int, upto ssa.Instruction) int {
+		for _, in := range b.Instrs {
+			if in == upto {
+				return st
+			}
+			if s, ok := in.(*ssa.Store); ok && s.Addr == cell {
+				if k, ok := constInt(s.Val); ok && k == 0 {
+					st = zero
+				} else {
+					st = unknown
+				}
+			}
+		}
+		return st
+	}
+	in := map[*ssa.BasicBlock]int{fn.Blocks[0]: unknown}
+	work := []*ssa.BasicBlock{fn.Blocks[0]}
+	for len(work) > 0 {
+		b := work[0]
+		work = work[1:]
+		out := transfer(b, in[b], nil)
+		state[b] = out
+		for _, sc := range b.Succs {
+			n := in[sc]
+			switch {
+			case n == unreached:
+				n = out
+			case n != out:
+				n = unknown
+			}
+			if n != in[sc] {
+				in[sc] = n
+				work = append(work, sc)
+			}
+		}
+	}
+	return transfer(walk.Block(), in[walk.Block()], walk) == zero
+}
+
 func (c *Ctx) checkCompress() {
 	L := c.L
 	L.Rule("compress-count", "in the site loop every iteration increments exactly one pattern counter by one and inserts the pattern once; the counter has type int; a new pattern is counted (npat++) exactly on the not-found branch of the lookup, with a counter starting at 0")
-	L.Rule("compress-weights", "weights has npat entries; inside the pattern walk the weight index and the rewritten column index are the same variable, which is incremented exactly once per pattern after both uses")
+	L.Rule("compress-weights", "weights has one entry per counted pattern; inside the pattern walk the weight index and the rewritten column index are the same variable, which is 0 when the walk starts and is incremented exactly once per pattern after both uses (variables identified by role, not by name)")
 	L.Rule("compress-length", "rows are truncated to [:npat] and the cached length is set to npat (same variable, no store in between)")
 	r := c.fn("align", "*align", "Compress")
 	if !r.ok() {
@@ -292,10 +421,13 @@ func (c *Ctx) checkCompress() {
 		ic := callOf(ins)
 		okKey = ic.Args[1] == get.Common().Args[1]
 	}
-	// new pattern: npat++ on the not-found branch, record created with count 0
+	// new pattern: the pattern counter is incremented by one exactly on the not-found branch of the
+	// lookup, where the record is created with count 0. The counter is a cell (captured by the
+	// walk callback) or a register (a φ of the site loop): identified by role, not by name.
 	okNew := false
-	var npatCell ssa.Value
-	if get != nil {
+	var npatCell ssa.Value // cell form
+	var npatPhi *ssa.Phi   // register form
+	if get != nil && lp != nil {
 		for _, ref := range *get.Referrers() {
 			ex, ok := ref.(*ssa.Extract)
 			if !ok || ex.Index != 1 {
@@ -313,8 +445,10 @@ func (c *Ctx) checkCompress() {
 						if bo, ok := st.Val.(*ssa.BinOp); ok && bo.Op == token.ADD {
 							if k, ok := constInt(bo.Y); ok && k == 1 {
 								if u, ok := bo.X.(*ssa.UnOp); ok && u.X == st.Addr {
-									nInc++
-									npatCell = st.Addr
+									if _, isCell := st.Addr.(*ssa.Alloc); isCell {
+										nInc++
+										npatCell = st.Addr
+									}
 								}
 							}
 						}
@@ -324,25 +458,59 @@ func (c *Ctx) checkCompress() {
 							}
 						}
 					}
+					if bo, ok := in.(*ssa.BinOp); ok && bo.Op == token.ADD && isIntType(bo.Type()) {
+						if k, ok := constInt(bo.Y); ok && k == 1 {
+							if ph, ok := bo.X.(*ssa.Phi); ok && ph.Block() == lp.Head {
+								// every value the φ takes from inside the loop is itself or this increment
+								okEdges := true
+								for i, e := range ph.Edges {
+									if !lp.Blocks[ph.Block().Preds[i]] {
+										if k0, ok := constInt(e); !ok || k0 != 0 {
+											okEdges = false
+										}
+										continue
+									}
+									seen := map[ssa.Value]bool{ssa.Value(ph): true}
+									var leaves func(v ssa.Value)
+									leaves = func(v ssa.Value) {
+										if seen[v] {
+											return
+										}
+										seen[v] = true
+										if q, isPhi := v.(*ssa.Phi); isPhi {
+											for _, qe := range q.Edges {
+												leaves(qe)
+											}
+											return
+										}
+										if v != ssa.Value(bo) {
+											okEdges = false
+										}
+									}
+									leaves(e)
+								}
+								if okEdges {
+									nInc++
+									npatPhi = ph
+								}
+							}
+						}
+					}
 				}
-				// the found branch must not touch npat
+				// the found branch must not touch the counter
 				okNew = nInc == 1 && zero
 			}
 		}
 	}
 	if npatCell != nil && lp != nil {
-		// no other store to npat inside the site loop
-		for _, ref := range *npatCell.Referrers() {
-			if st, ok := ref.(*ssa.Store); ok && lp.Blocks[st.Block()] {
-				if bo, ok := st.Val.(*ssa.BinOp); !ok || bo.Op != token.ADD {
-					okNew = false
-				}
-			}
-		}
+		// no other store to the counter inside the site loop
 		n := 0
 		for _, ref := range *npatCell.Referrers() {
 			if st, ok := ref.(*ssa.Store); ok && lp.Blocks[st.Block()] {
 				n++
+				if bo, ok := st.Val.(*ssa.BinOp); !ok || bo.Op != token.ADD {
+					okNew = false
+				}
 			}
 		}
 		if n != 1 {
@@ -358,7 +526,14 @@ func (c *Ctx) checkCompress() {
 	okLen := false
 	allInstrs(fn, func(in ssa.Instruction) {
 		if mk, ok := in.(*ssa.MakeSlice); ok {
+			isCount := false
 			if u, ok := mk.Len.(*ssa.UnOp); ok && npatCell != nil && u.X == npatCell {
+				isCount = true
+			}
+			if npatPhi != nil && mk.Len == ssa.Value(npatPhi) {
+				isCount = true
+			}
+			if isCount {
 				if sl, ok := mk.Type().Underlying().(*types.Slice); ok {
 					if b, ok := sl.Elem().Underlying().(*types.Basic); ok && b.Kind() == types.Int {
 						okLen = true
@@ -406,7 +581,7 @@ func (c *Ctx) checkCompress() {
 					}
 				}
 			}
-			if fv, ok := st.Addr.(*ssa.FreeVar); ok && fv.Name() == "npat" {
+			if fv, ok := st.Addr.(*ssa.FreeVar); ok && isIntType(fv.Type().Underlying().(*types.Pointer).Elem()) {
 				nStoreFV++
 				inc = st
 			}
@@ -423,9 +598,14 @@ func (c *Ctx) checkCompress() {
 			return nil
 		}
 		fw, fc := loadOf(wIdx), loadOf(colIdx)
-		same := fw != nil && fw == fc && fw.Name() == "npat"
+		same := fw != nil && fw == fc
+		// the shared index is 0 when the walk starts
+		startZero := false
+		if same {
+			startZero = walkIndexStartsAtZero(fn, cl, fw)
+		}
 		incOK := false
-		if inc != nil && nStoreFV == 1 {
+		if inc != nil && nStoreFV == 1 && inc.Addr == ssa.Value(fw) {
 			if bo, ok := inc.Val.(*ssa.BinOp); ok && bo.Op == token.ADD {
 				if k, ok := constInt(bo.Y); ok && k == 1 {
 					// after both uses, on every path to return
@@ -443,10 +623,10 @@ func (c *Ctx) checkCompress() {
 				}
 			}
 		}
-		okWalk = same && incOK && okVal
-		det = fmt.Sprintf("weight index and column index are the same variable npat: %v; npat++ exactly once after both: %v; the weight stored is the full-width counter: %v", same, incOK, okVal)
+		okWalk = same && incOK && okVal && startZero
+		det = fmt.Sprintf("weight index and column index are the same variable: %v; it is 0 when the walk starts: %v; it is incremented exactly once per pattern after both uses: %v; the weight stored is the full-width counter: %v", same, startZero, incOK, okVal)
 	}
-	L.Check(okLen && okWalk, "compress-weights", r.label, "weights[npat] and column npat", c.P.Pos(fn.Pos()), "weights = make([]int, npat); "+det, fmt.Sprintf("weights has npat entries: %v; %s", okLen, det))
+	L.Check(okLen && okWalk, "compress-weights", r.label, "weights[k] and column k of the k-th pattern", c.P.Pos(fn.Pos()), "weights = make([]int, npat); "+det, fmt.Sprintf("weights has npat entries: %v; %s", okLen, det))
 	L.Floor("compress-weights", 1, "pattern walk")
 
 	lc := newLinCtx(c, fn)
